@@ -198,9 +198,41 @@ def model_confirmed(text, model, timeout_ms=20000):
 
 def solve_smt2(args):
     status, backend, dt, model = _solve_smt2(args)
-    if status == REFUTED and not model_confirmed(args[0], model):
-        return UNDECIDED, "%s answered sat, but z3-%s finds the obligation unsat under that very model (solver disagreement: undecided, not a refutation)" % (backend, z3.get_version_string()), dt, None
-    return status, backend, dt, model
+    if status != REFUTED or model_confirmed(args[0], model):
+        return status, backend, dt, model
+    # A `sat` whose model does not survive the independent check is a wrong answer of a string solver (seen from z3 5.1 itself,
+    # on a loaded machine, for an obligation it proves in every other run).  It is neither a refutation nor the end of the
+    # portfolio: the other solvers are asked, then z3 again under other random seeds; `unsat` from any of them proves the
+    # obligation, a `sat` counts only with a confirmed model.
+    text, timeout_ms = args
+    t = time.time()
+    first = backend
+    sv = Solver(timeout_ms=max(timeout_ms, EXTERNAL_BUDGET_MS))
+    st, be2 = sv.external(text)
+    if st == PROVED:
+        return PROVED, "%s (after an unconfirmed sat of %s)" % (be2, first), dt + time.time() - t, None
+    if st == REFUTED and model_confirmed(text, sv.last_model):
+        return REFUTED, be2, dt + time.time() - t, sv.last_model
+    for seed in (1, 2, 3):
+        try:
+            s = z3.Solver()
+            s.set("timeout", max(timeout_ms, 10000))
+            s.set("random_seed", seed)
+            s.from_string(text)
+            r = s.check()
+        except z3.Z3Exception:
+            continue
+        if r == z3.unsat:
+            return PROVED, "z3-%s seed %d (after an unconfirmed sat of %s)" % (z3.get_version_string(), seed, first), dt + time.time() - t, None
+        if r == z3.sat:
+            try:
+                m = s.model()
+                model2 = {str(d): _val_text(m[d]) for d in m.decls() if not str(d).startswith("uf:")}
+            except z3.Z3Exception:
+                continue
+            if model_confirmed(text, model2):
+                return REFUTED, "z3-%s seed %d" % (z3.get_version_string(), seed), dt + time.time() - t, model2
+    return UNDECIDED, "%s answered sat, but z3-%s finds the obligation unsat under that very model, and no other solver / seed decided it (solver disagreement: undecided, not a refutation)" % (first, z3.get_version_string()), dt + time.time() - t, None
 
 
 def _solve_smt2(args):
